@@ -403,7 +403,7 @@ ENTRY_METHOD = {
     "inv_quad_logdet": "E_inv_quad_logdet", "__add__": "E_add", "__sub__": "E_sub", "mul": "E_mul",
     "add_diagonal": "E_add_diagonal", "expand": "E_expand", "__getitem__": "E_getitem", "logdet": "E_logdet",
     "diagonalization": "E_diagonalization", "root_decomposition": "E_root_decomposition",
-    "root_inv_decomposition": "E_root_inv_decomposition",
+    "root_inv_decomposition": "E_root_inv_decomposition", "cholesky": "E_cholesky",
 }
 # thin wrappers that must exist on the base class only and delegate verbatim
 WRAPPERS = {"__matmul__": "self.matmul(other)", "__rmatmul__": "self.rmatmul(other)", "__mul__": "self.mul(other)",
